@@ -5,6 +5,7 @@ import pfam, canon
 PAYLOADS = ["pl", "a==b", "==", "SELECT", "CURRENT DATE", "CURRENT TIMESTAMP x", "--", "-- c", "/*", "/* x", "#", "# c", "(", ")]", "([", ";", "a;b", "a\tb", "a\r\nb", "a　b",
             "é", "日本語", "😀", "a b", " ", "FROM t WHERE", "1 + 2", ",", "NULL", "!=", "<=>", "a.b", "%", "x_1", "CURRENT_DATE", "UNION ALL", "\\n", "it s", "{#}", "#{x}",
             "a'b", 'a"b', "a`b", "*/", "\n",
+            "cross", "USING", "sort", "Distribute", "cluster", "left", "join", "on", "as", "limit", "union", "where", "order", "group", "partition", "over", "null", "true", "and", "not", "in", "is",
             "a\\tb", "\\d+", "C:\\\\dir", "\\\\", "x\\%y", "\\n\\r", "\\", "ab\\"]
 # region kind -> (open, close, forbidden substrings)
 REGIONS = {"sq": ("'", "'", ["'"]), "dq": ('"', '"', ['"']), "bq": ("`", "`", ["`"]), "block": ("/*", "*/", ["*/", "*"]),
@@ -15,6 +16,8 @@ TEMPLATES = [(("sq", "dq"), "SELECT {R} FROM t"), (("sq", "dq"), "SELECT a FROM 
              (("sq", "dq"), "CREATE TABLE t (a int COMMENT {R}) COMMENT={R}"), (("sq",), "SELECT a FROM t WHERE b LIKE {R}"),
              (("bq",), "SELECT {R} FROM t"), (("bq",), "SELECT a AS {R} FROM t"), (("bq",), "SELECT zq.{R} FROM {R} zq"), (("bq",), "SELECT a FROM s.{R} WHERE {R} > 1"),
              (("bq",), "UPDATE {R} SET a = 1"), (("bq",), "INSERT INTO {R} (a) VALUES (1)"), (("bq",), "SELECT {R}(a) FROM t"),
+             (("bq",), "SELECT a {R} FROM t"), (("bq",), "SELECT a FROM t {R}"), (("bq",), "SELECT a FROM (SELECT 1) {R}"), (("bq",), "SELECT a FROM t JOIN u {R} ON 1 = 1"),
+             (("bq",), "SELECT a FROM t {R} WHERE 1 = 1"), (("bq",), "INSERT INTO t SELECT a {R} FROM u {R}"), (("bq",), "SELECT COUNT(1) {R}, b FROM t GROUP BY b"),
              (("block", "dash", "hash"), "SELECT a {R} FROM t"), (("block", "dash", "hash"), "SELECT a, {R} b FROM t WHERE c = 1"), (("block",), "SELECT f({R}a) FROM t"),
              (("block", "dash", "hash"), "SELECT a FROM t {R} ; {R} SELECT 2"), (("block", "dash", "hash"), "INSERT INTO t VALUES (1) {R}")]
 
